@@ -63,6 +63,7 @@ async fn exec_uring_sim(op: &Op, ud: u64) -> Ret {
         Op::WriteAt { p, off, n, key, .. } => (p, "w", K::Write(*off, payload(*key, *n))),
         Op::ReadAt { p, off, n, .. } => (p, "r", K::Read(*off, *n)),
         Op::SyncAll { p, .. } | Op::SyncData { p, .. } => (p, "w", K::Fsync),
+        Op::Handle { p, .. } if op.is_ro_sync() => (p, "r", K::Fsync),
         _ => return exec_std(op),
     };
     let f = {
@@ -141,6 +142,7 @@ async fn exec_uring_sim(op: &Op, ud: u64) -> Ret {
             rbuf.truncate(k);
             Ret::Ok(Val::Bytes(rbuf))
         }
+        Op::Handle { .. } => Ret::Ok(Val::Steps(vec![Ret::Ok(Val::Unit)])),
         _ => Ret::Ok(Val::Unit),
     }
 }
